@@ -330,6 +330,16 @@ impl Recorder {
     }
 }
 
+/// appends ,"tag":"..." to an event object (the tag is an opaque generator label)
+fn add_tag(out: &mut String, tag: &str) {
+    if out.ends_with('}') {
+        out.pop();
+        out.push_str(",\"tag\":");
+        json_str(out, tag);
+        out.push('}');
+    }
+}
+
 fn main() {
     let args: Vec<String> = std::env::args().collect();
     std::panic::set_hook(Box::new(|info| {
@@ -389,6 +399,9 @@ fn main() {
                 let dec = f[1] == "1";
                 let b = unhex(f[2]);
                 rec.op_line(&mut out, p, dec, &b);
+                if f.len() > 3 {
+                    add_tag(&mut out, f[3]);
+                }
             }
             "U" => {
                 let f: Vec<&str> = rest.split(' ').collect();
@@ -398,10 +411,17 @@ fn main() {
                 let fill: usize = f[0].parse().unwrap_or(0);
                 let b = unhex(f[1]);
                 rec.op_unarmor(&mut out, fill, &b);
+                if f.len() > 2 {
+                    add_tag(&mut out, f[2]);
+                }
             }
             "D" => {
-                let b = unhex(rest.trim());
+                let f: Vec<&str> = rest.trim().split(' ').collect();
+                let b = unhex(f[0]);
                 rec.op_decode(&mut out, &b);
+                if f.len() > 1 {
+                    add_tag(&mut out, f[1]);
+                }
             }
             "S" => {
                 let c: u8 = rest.trim().parse().unwrap_or(0);
